@@ -10,7 +10,7 @@ from .. import pb
 NAMING = True
 ID = "C03"
 ORACLE = "Oracle.C03"
-PROPS = ["Props/C03.v", "Props/TieGen.v"]
+PROPS = ["Props/C03.v", "Props/TieGen.v", "Props/C03gen.v"]
 LEVEL = "proof"
 SHARD = 40
 MAX_DISCARD = 0.05
